@@ -382,10 +382,19 @@ def run_ds(cfg, choose, pu_lines=False):
             if cfg['api'] == 'prefetch':
                 ds = src.map(fn).prefetch(cfg['w'], cfg['buf'],
                                           catch_filter_exception=True if cfg['cfe'] else None)
-                if not cfg['cfe']:
-                    len_ok = len(ds) == cfg['n']
             else:
                 ds = src.map(fn, num_workers=cfg['w'], buffer_size=cfg['buf'])
+            # the same pipeline reached through a copy of it: copy(), a frozen
+            # copy, the profiling wrapper (which copies the pipeline it wraps)
+            via = cfg.get('via', 'direct')
+            if via == 'copy':
+                ds = ds.copy()
+            elif via == 'frozen':
+                ds = ds.copy(freeze=True)
+            elif via == 'profile':
+                from lazy_dataset.core import ProfilingDataset
+                ds = ProfilingDataset(ds)
+            if not (cfg['api'] == 'prefetch' and cfg['cfe']):
                 len_ok = len(ds) == cfg['n']
             gen = iter(ds)
             if cfg['stop'] == 'close' and cfg['stop_k'] == 0:
@@ -421,6 +430,22 @@ def run_ds(cfg, choose, pu_lines=False):
                 'len_ok': bool(len_ok), 'backend': 't', 'controlled': True,
                 'shape': 'range', 'seq': [], 'seq_out': 'returned'})
     return rec, sched
+
+
+def ds_big_configs(rng, count):
+    """Dataset-level workloads well above the buffer size (the read-ahead
+    bound is not trivial), reached directly and through copies."""
+    out = []
+    for _ in range(count):
+        api = rng.choice(['prefetch', 'parmap'])
+        w = rng.choice([1, 1, 2, 3])
+        buf = rng.randint(w, 3)
+        n = rng.randint(buf + 4, 14)
+        stop = rng.choice([('exhaust', 0), ('close', rng.randint(1, n - 1))])
+        out.append({'api': api, 'n': n, 'buf': buf, 'w': w, 'fn_fail': [], 'fail_kind': 'filter',
+                    'cfe': 0, 'stop': stop[0], 'stop_k': stop[1],
+                    'via': rng.choice(['direct', 'copy', 'frozen', 'profile'])})
+    return out
 
 
 def ds_configs(max_n, ws, bufs):
